@@ -293,6 +293,14 @@ class Analyzer:
             return
         body = info["body"]
         var = hirq.show_pat(info["pat"])
+        # idiom: for x in self.f.iter_mut() { *x = c }  /  for (i, x) in self.f.iter_mut().enumerate() { *x = i }
+        im = iter_mut_kill(info)
+        if im is not None:
+            f_, _spec = im
+            self._scan(info["body"]["stmts"][0]["r"] if False else nf.strip(it), a, s, fn) if False else None
+            s.mut.add(f_)
+            st["killed"].add(f_)
+            return
         full = self.full_range(nf.nf(it, True, res=_R(fn)), fn)
         cands = []
         if body["k"] == "Block":
@@ -327,6 +335,43 @@ class Analyzer:
 
     def is_size(self, expr_nf, fn):
         return True
+
+
+def iter_mut_kill(info):
+    """(field, ('iota',)|('fill', value nf)) if the for loop is `for x in self.f.iter_mut() { *x = c }` or
+    `for (i, x) in self.f.iter_mut().enumerate() { *x = i }` with nothing else in its body"""
+    it = nf.strip(info["iter"])
+    enum = False
+    if it["k"] == "MethodCall" and it["name"] == "enumerate" and not it["args"]:
+        enum = True
+        it = nf.strip(it["recv"])
+    if it["k"] != "MethodCall" or it["name"] != "iter_mut" or it["args"]:
+        return None
+    kind, key, proj, idx = slicer.base_place(it["recv"])
+    if kind != "self" or proj or idx:
+        return None
+    pat = info["pat"]
+    if enum:
+        if pat["k"] != "Tuple" or len(pat["subs"]) != 2:
+            return None
+        ivar, xvar = hirq.show_pat(pat["subs"][0]), hirq.show_pat(pat["subs"][1])
+    else:
+        ivar, xvar = None, hirq.show_pat(pat)
+    body = info["body"]
+    stmts = [x for x in (body["stmts"] + ([body["expr"]] if "expr" in body else [])) if not hirq.in_log_macro(x)] if body["k"] == "Block" else [body]
+    if len(stmts) != 1 or stmts[0]["k"] != "Assign":
+        return None
+    l = stmts[0]["l"]
+    if not (l["k"] == "Unary" and l["op"] == "*" and nf.nf(l["e"]) == xvar):
+        return None
+    v = nf.nf(stmts[0]["r"], True)
+    if "self.%s" % key in v or re.search(r"\b%s\b" % re.escape(xvar), v):
+        return None
+    if ivar is not None and v == ivar:
+        return (key, ("iota",))
+    if ivar is not None and re.search(r"\b%s\b" % re.escape(ivar), v):
+        return None
+    return (key, ("fill", stmts[0]["r"]))
 
 
 # ------------------------------------------------------------------------------------- InitSpec
@@ -533,6 +578,10 @@ def reset_specs(fn, aliases, nested_types):
             if not fl:
                 return
             f = fl[0]
+            im = iter_mut_kill(f)
+            if im is not None:
+                out[im[0]] = Spec("iota", "", "N") if im[1][0] == "iota" else Spec("fill", value(im[1][1]), "N")
+                return
             rng = nf.nf(f["iter"], casts=True, res=_R(fn))
             m = re.match(r"^std::ops::Range\{start:0, end:(.*)\}$", rng)
             var = hirq.show_pat(f["pat"])
